@@ -19,6 +19,12 @@ def conserved (total ok failed : Int) : Bool := total == ok + failed && total â‰
     outcomes as attempts were made. -/
 def recordedOnce (attemptsMade recorded : Int) : Bool := recorded == attemptsMade
 
+/-- "every attempt is recorded exactly once" at every scope: an attempt is made on one endpoint, so what the global
+    scope recorded over some stretch of time is what the endpoints' scopes recorded together over it
+    ([total, successes, failures] each). -/
+def scopesAgree (global : Int Ã— Int Ã— Int) (perEndpoint : List (Int Ã— Int Ã— Int)) : Bool :=
+  perEndpoint.foldl (fun (a, b, c) (t, o, f) => (a + t, b + o, c + f)) (0, 0, 0) == global
+
 /-- What one client ended up with. `inFull`: the whole response of the serving backend arrived. -/
 structure ClientSaw where
   status : Nat
